@@ -6,6 +6,7 @@ import (
 	"go/token"
 	"go/types"
 	"log"
+	"sort"
 
 	"github.com/goghcrow/go-ast-matcher"
 	"github.com/goghcrow/go-imports"
@@ -184,8 +185,43 @@ func (r *rewriter) rewriteFile(f *loader.File, printer FilePrinter) {
 	log.Printf("write file: %s\n", f.Filename)
 	// clear free-floating comments, preventing confusing position of comments
 	// https://github.com/golang/go/issues/20744
+	if r.comments != nil {
+		// go/printer ignores the doc comments of the nodes once File.Comments is set,
+		// keep them, they may carry directives (go:embed, go:noinline, ...)
+		r.comments = append(r.comments, docComments(f.File)...)
+		sort.SliceStable(r.comments, func(i, j int) bool {
+			return r.comments[i].Pos() < r.comments[j].Pos()
+		})
+	}
 	f.File.Comments = r.comments
 	printer(f.Filename, f)
+}
+
+func docComments(f *ast.File) (docs []*ast.CommentGroup) {
+	ast.Inspect(f, func(n ast.Node) bool {
+		var doc *ast.CommentGroup
+		switch n := n.(type) {
+		case *ast.File:
+			doc = n.Doc
+		case *ast.GenDecl:
+			doc = n.Doc
+		case *ast.FuncDecl:
+			doc = n.Doc
+		case *ast.TypeSpec:
+			doc = n.Doc
+		case *ast.ValueSpec:
+			doc = n.Doc
+		case *ast.ImportSpec:
+			doc = n.Doc
+		case *ast.Field:
+			doc = n.Doc
+		}
+		if doc != nil {
+			docs = append(docs, doc)
+		}
+		return true
+	})
+	return
 }
 
 // ↓↓↓↓↓↓↓↓↓↓↓↓↓↓↓↓↓↓↓↓↓↓ Collect YieldFunc ↓↓↓↓↓↓↓↓↓↓↓↓↓↓↓↓↓↓↓↓↓↓
